@@ -237,7 +237,10 @@ pub fn gen_inventory(repo: &str) -> String {
     let mut counts: BTreeMap<(String, String), usize> = BTreeMap::new();
     for s in &panic_sites {
         let parts: Vec<&str> = s.splitn(3, "::").collect();
-        let file = parts[0].to_string();
+        // area of the crate: src/report/*, src/analyzer/** or the files directly under src/ — a site may move between
+        // the files of an area (a shared helper), which changes no count
+        let comps: Vec<&str> = parts[0].split('/').collect();
+        let file = if comps.len() >= 3 { format!("src/{}", comps[1]) } else { "src".to_string() };
         let kind = s.rsplit("::").next().unwrap_or("").split('#').next().unwrap_or("").to_string();
         // `x = x + 1` and `x += 1`, `unwrap()` and `expect(..)` are the same site written differently
         let kind = if kind.starts_with("arith:") {
